@@ -208,6 +208,37 @@ Theorem C14_checker_accepts_model_enrol_partial : forall np na ns evs c pe close
 Proof. exact enrol_clause_model. Qed.
 Print Assumptions C14_checker_accepts_model_enrol_partial.
 
+(* Further clause families, each as the checker evaluates it on the model's own snapshots.
+   notifications: across any one event of a well-formed history inside the case's universe the new
+   notifications are exactly the records of the peers the event took from registered to unregistered. *)
+Theorem C14_checker_accepts_model_notifications_partial : forall np nc na ns hist e,
+  wf (hist ++ [e]) -> bounded np nc na (hist ++ [e]) ->
+  Check_C14.check_notes np (Check_C14.snap_of np na ns (run hist))
+                           (Check_C14.snap_of np na ns (step (run hist) e)) = true.
+Proof. exact check_notes_model. Qed.
+Print Assumptions C14_checker_accepts_model_notifications_partial.
+
+(* ctx-not-cancelled, for wrapper states 2 and 3, on every reachable state *)
+Theorem C14_checker_accepts_model_ctx_partial : forall np na ns evs,
+  wf evs -> sbounded np ns evs ->
+  Check_C14.check_ctx ns evs (Check_C14.snap_of np na ns (run evs)) = true.
+Proof. exact check_ctx_model. Qed.
+Print Assumptions C14_checker_accepts_model_ctx_partial.
+
+(* reset of a new stream from an unregistered peer (needs no premise on the state) *)
+Theorem C14_checker_accepts_model_reset_partial : forall np na ns r s p, s < ns -> p < np ->
+  (if (Check_C14.cell (Check_C14.sn_sw (Check_C14.snap_of np na ns r)) s =? 0)%Z
+      && negb (Check_C14.reg_in (Check_C14.snap_of np na ns r) p)
+   then (Check_C14.cell (Check_C14.sn_sw (Check_C14.snap_of np na ns (step r (SLookup s p)))) s =? 4)%Z
+   else true) = true.
+Proof. exact reset_clause_model. Qed.
+Print Assumptions C14_checker_accepts_model_reset_partial.
+(* STILL OPEN: the handler-identity / handler-unregistered clause (check_starts needs the invariant
+   that ties the checker's threaded tables tracked_in / looked_in to the wrapper states of the
+   model; the lemmas it rests on -- sw_lookup, sw_track, sw_start, sw_end, sw_stream_peer,
+   started_eq, started_has -- are proved in proofs/PeerRegistry_proofs.v, the invariant's
+   preservation is not), and with it the single statement over Check_C14.check_from. *)
+
 (* Blocking a peer (Service.blockPeer) does not touch the registry: a registered peer that is blocked
    stays registered until its last connection closes, and then gets its one notification like any
    other (C14_last_close applies unchanged).  Anchored on the source: blockPeer calls no registry
